@@ -188,6 +188,20 @@ func families(tmp string) []hcase {
 	for _, t := range []string{"h${0,255,d}", "h${0,256,d}", "h${0,0,q}", "h${", "h${}", "h${0,0,d,1}", "h${-9223372036854775808,0,d}", "h${2147483647,0,d}", "h${1,99999999999,d}", "h$$$$$", "h\\", "${0,63,d}.${0,63,d}.${0,63,d}.${0,63,d}"} {
 		cs = append(cs, hcase{fam: "generate", text: "$GENERATE 0-3 " + t + " 5 A 10.0.0.1\n", allowed: false, maxRecs: 65536})
 	}
+	// 6b. ${offset,width,base} with widths around and far beyond the limit (width <= 255): a few octets of zone must not
+	// expand to megabytes.  The spec says which are admissible; the allocation guard applies in any case.
+	for _, wd := range []int{3, 255, 256, 1000, 65536, 3000000} {
+		for _, b := range []string{"d", "x"} {
+			m := fmt.Sprintf("${0,%d,%s}", wd, b)
+			g := zg.Line{K: "generate", Lo: 1, Hi: 4, Step: 1, Lhs: hx.FromString("host-$"), TTL: 5, Class: 0, Order: "tc", Type: 16,
+				Rhs: []zg.Item{{Raw: hx.FromString(m), Q: false}}}
+			cs = append(cs, hcase{fam: "generate-width", text: "$GENERATE 1-4 host-$ 5 TXT " + m + "\nafter 5 A 10.0.0.9\n", allowed: false,
+				lines: []zg.Line{g, rrA(rel("after"), 5, 9)}, spell: true, maxRecs: 65536})
+		}
+	}
+	for _, t := range []string{"${0,3000000}", "${0,99999999999999999999,d}", "${0,-1,d}", "${9223372036854775807,0,d}", "${0,255,d}${0,255,d}${0,255,d}${0,255,d}"} {
+		cs = append(cs, hcase{fam: "generate-width", text: "$GENERATE 1-4 host-$ 5 TXT " + t + "\n", allowed: false, maxRecs: 65536})
+	}
 	// 7. tokens and comments of 511 / 512 / 513 / 2047 / 2048 / 10^6 octets
 	for _, n := range []int{511, 512, 513, 2047, 2048, 1000000} {
 		small := n <= 2048
